@@ -235,6 +235,11 @@ def coupling():
     return obs
 
 
+for _sfx in ("", "_async"):
+    for _b in ("none", "scalar", "array"):
+        render_node_contract("C06", _sfx, _b, lambda: REPLAY)
+
+
 not_covered("C06", "custom tags", "`case/when` with duplicate values (MultiExpressionBlockNode repeats a block per matching when; not a construct named by the statement)",
             "the coupling obligations are call-site shape obligations (which context manager encloses the rendering loop), discharged syntactically; the arithmetic inside loop()/iterations()/copy()/raise_for_loop_limit is proved")
 
